@@ -5,6 +5,7 @@
 //   field <32|64> modgen <p> <k> | c0 .. ck | g0 .. gm
 //        -> "F <q> <one> <mone> H <h1> <h2> <h3> X <irred> <gen> <card> <char> <expo> <zero> <size> <residu> <genrep> [T l2p | p2l | pl1]"
 //   op <variant> a b c          -> result (see run_op)
+//   opa <variant> <pattern> v1 v2 v3 -> result of the call with aliased destination/operands (c05_alias.h)
 //   arr <variant> <sz> <scalar> | r.. | x.. | y..   -> "R r.." or "UB" (the call crashed in a child process)
 //   dot <sz> | a.. | b..        -> result
 //   cvt <variant> <value>       -> init from the given C++ type, then convert back:  "<rep> <converted>"
@@ -19,6 +20,7 @@
 #include <sys/wait.h>
 #include "givinteger.h"
 #include "gfq.h"
+#include "c05_alias.h"
 
 using namespace Givaro;
 
@@ -157,6 +159,12 @@ template <class T> struct S : public Session {
             Elt a = t.size() > 2 ? (Elt)strtoll(t[2].c_str(), 0, 10) : 0, b = t.size() > 3 ? (Elt)strtoll(t[3].c_str(), 0, 10) : 0,
                 c = t.size() > 4 ? (Elt)strtoll(t[4].c_str(), 0, 10) : 0;
             return run_op(t[1], a, b, c);
+        }
+        if (t[0] == "opa") {      // opa <variant> <pattern> v1 v2 v3 : the call with destination/operands aliased as the pattern says
+            Elt sl[4] = {-91, -92, -93, -94}, vals[3] = {0, 0, 0};
+            for (size_t i = 3; i < t.size() && i < 6; ++i) vals[i - 3] = (Elt)strtoll(t[i].c_str(), 0, 10);
+            if (!c05_fill(t[1], t[2], sl, vals) || !c05_call(F, t[1], t[2], sl)) return "UNKNOWN-OP";
+            std::ostringstream o; o << (ll)sl[t[2][0] - '0']; return o.str();
         }
         if (t[0] == "arr") {
             size_t sz = strtoull(t[2].c_str(), 0, 10); Elt s = (Elt)strtoll(t[3].c_str(), 0, 10);
